@@ -76,8 +76,9 @@ package procbuilder
 //@   frameonly
 
 // Every pending deferred instruction is called (at least) once by a successful round, whatever else the VM is doing
-// (evalcount counts the calls made through each function value), and the pending set only shrinks: what stays
-// pending was pending before, under the same name and with the same closure.
+// (evalcount counts the calls made through each function value, evaltrue/evalfalse those that returned true/false),
+// and the pending set only shrinks: what stays pending was pending before, under the same name and with the same
+// closure, and reported "not complete" in this round; what is dropped reported "complete" in this round.
 //@ props C09 C04 C02
 //@ func (vm *VM) ExecuteDeferredInstructions() error
 //@   requires vm != nil ==> vm.Mach != nil
@@ -85,6 +86,12 @@ package procbuilder
 //@   ensures evaluated: result == nil ==> (forall k string :: haskey(old(vm.DeferredInstructions), k) ==> evalcount(old(vm.DeferredInstructions[k])) >= old(evalcount(vm.DeferredInstructions[k])) + 1)
 //@   ensures kept: result == nil ==> (forall k string :: haskey(vm.DeferredInstructions, k) ==> old(haskey(vm.DeferredInstructions, k)) && vm.DeferredInstructions[k] == old(vm.DeferredInstructions[k]))
 //@   ensures rejected: result != nil ==> vm == nil || old(vm.DeferredInstructions) == nil
+//@   ensures dropped_when_done: result == nil ==> (forall k string :: old(haskey(vm.DeferredInstructions, k)) && !haskey(vm.DeferredInstructions, k) ==> evaltrue(old(vm.DeferredInstructions[k])) >= old(evaltrue(vm.DeferredInstructions[k])) + 1)
+//@   ensures pending_when_not: result == nil ==> (forall k string :: haskey(vm.DeferredInstructions, k) ==> evalfalse(vm.DeferredInstructions[k]) >= old(evalfalse(vm.DeferredInstructions[k])) + 1)
+//@   loop 1: invariant seenT: forall k string :: visited(k) && !haskey(notCompleted, k) ==> evaltrue(vm.DeferredInstructions[k]) >= old(evaltrue(vm.DeferredInstructions[k])) + 1
+//@   loop 1: invariant seenF: forall k string :: haskey(notCompleted, k) ==> evalfalse(vm.DeferredInstructions[k]) >= old(evalfalse(vm.DeferredInstructions[k])) + 1
+//@   loop 1: invariant monoT: forall f int :: evaltrue(f) >= old(evaltrue(f))
+//@   loop 1: invariant monoF: forall f int :: evalfalse(f) >= old(evalfalse(f))
 //@   loop 1: invariant seen: forall k string :: visited(k) ==> evalcount(vm.DeferredInstructions[k]) >= old(evalcount(vm.DeferredInstructions[k])) + 1
 //@   loop 1: invariant mono: forall f int :: evalcount(f) >= old(evalcount(f))
 //@   loop 1: invariant sub: forall k string :: haskey(notCompleted, k) ==> haskey(vm.DeferredInstructions, k) && notCompleted[k] == vm.DeferredInstructions[k]
